@@ -439,14 +439,31 @@ def grep_forbidden():
     return hits
 
 
+SWEEP_AXIOMS = """
+open Lean Elab Command in
+run_cmd do
+  let env ← getEnv
+  let some idx := env.getModuleIdx? `DimModel.Props.%s | throwError "no module"
+  for n in env.header.moduleData[idx]!.constNames do
+    if n.isInternalDetail then continue
+    match env.find? n with
+    | some (.thmInfo _) =>
+      let axs ← liftCoreM (collectAxioms n)
+      logInfo m!"AXSWEEP {n} {axs.toList}"
+    | _ => pure ()
+"""
+
+
 def audit(prop_id, theorems):
     """`#print axioms` for every property theorem; returns dict name -> list of axioms or None"""
     os.makedirs(os.path.join(WORK, "audit"), exist_ok=True)
     path = os.path.join(WORK, "audit", "Audit_%s_%d.lean" % (prop_id, os.getpid()))
     with open(path, "w") as f:
-        f.write("import DimModel.Props.%s\nopen DimModel\n" % prop_id)
+        f.write("import Lean\nimport DimModel.Props.%s\nopen DimModel\n" % prop_id)
         for t in theorems:
             f.write("#print axioms %s\n" % t)
+        # ... and of every theorem declared in the property's module, whether listed or not
+        f.write(SWEEP_AXIOMS % prop_id)
     lk = _lock()
     try:
         p = subprocess.run(["lake", "env", "lean", path], cwd=LEAN, capture_output=True, text=True, timeout=1800)
@@ -460,6 +477,8 @@ def audit(prop_id, theorems):
         res[m.group(1)] = [x.strip() for x in m.group(2).replace("\n", " ").split(",") if x.strip()]
     for m in re.finditer(r"'([^']+)' does not depend on any axioms", out):
         res[m.group(1)] = []
+    for m in re.finditer(r"AXSWEEP (\S+) \[([^\]]*)\]", out):
+        res.setdefault(m.group(1), [x.strip() for x in m.group(2).split(",") if x.strip()])
     os.unlink(path)
     return res, out, p.returncode
 
